@@ -31,6 +31,7 @@ type C14Case struct {
 	RawLog   bool    `json:"rawlog,omitempty"`   // -rapid.log
 	ShrinkMS int     `json:"shrinkms,omitempty"` // > 0: minimization attempts run the property (and its goroutines) on fresh Ts
 	InCustom bool    `json:"incustom,omitempty"` // the extra goroutines run while the property's goroutine is inside a Custom generator function
+	SpinFail bool    `json:"spinfail,omitempty"` // the first spinning goroutine signals a failure first and then polls Failed()
 	Spin     int     `json:"spin,omitempty"`     // goroutines that call Cleanup / Failed / Name in a tight loop until the context is cancelled, while the property's goroutine runs a state machine
 	LateCtx  bool    `json:"latectx,omitempty"`  // ... and asks for the context then: the property function has returned, so it must be a cancelled one
 }
@@ -101,6 +102,7 @@ func (c14) Gen(dt *drv.T, c *Ctx) any {
 	}
 	if chance(dt, "spin", 6) {
 		cs.Spin = drv.IntRange(1, 4).Draw(dt, "nspin")
+		cs.SpinFail = cs.Spin >= 2 && drv.Bool().Draw(dt, "spinfail")
 		if cs.Procs < 4 {
 			cs.Procs = 4
 		}
@@ -267,7 +269,21 @@ func (c14) Run(c *Ctx, csAny any) Outcome {
 				spinWG.Add(1)
 				go func(s int) {
 					defer spinWG.Done()
+					own := false
+					if s == 0 && cs.SpinFail {
+						// this goroutine has signalled a failure: from now on Failed() must say so, whatever the
+						// other goroutines are doing to T in the meantime
+						atomic.StoreInt32(&iv.signalled, 1)
+						t.Errorf("spin %d", s)
+						own = true
+					}
 					for n := 0; cx.Err() == nil && n < 4*spinCleanups; n++ {
+						if own && n%2 == 1 {
+							if !t.Failed() {
+								atomic.AddInt32(&iv.failedLie, 1)
+							}
+							continue
+						}
 						switch {
 						case n%2 == 0 && n/2 < spinCleanups:
 							id := atomic.AddInt32(&iv.registered, 1) - 1
